@@ -332,7 +332,7 @@ def run(ctx):
                        "model-spelled canonical Dimension<>/Magnitude<> and the spelling must not change the unit type; (pair) two trees that are equal by "
                        "another route (physical definition expanded, (E*s)/s, sqrt(E^2), scale/unscale), near misses (one prime, 10^3, pi, half a metre, an "
                        "angle apart) or independent: has_same_dimension, are_units_quantity_equivalent (both orders), unit_ratio type and integer value vs "
-                       "model; (spell) permuted/re-associated products of powers of named units must be the identical type. A fixed grid (every library unit "
+                       "model; (spell) permuted/re-associated products of powers of named units must be the identical type; (scaledperm) every order and grouping of two anonymous scalings of one length unit with a scaling of another must be the identical type and their quotients cancel to UnitProductT<>. A fixed grid (every library unit "
                        "x 5 spellings, every derived unit vs its physical definition, every prefix) runs first. Twin units are replaced by construction. "
                        "Each TU is compiled under one of the six configurations (rotating; thorough: all six). Non-trivial: >=3 distinct leaves, a rational "
                        "exponent, a scaling or a named unit; for pairs the two sides differ syntactically; distinct by canonical JSON of the case.")
